@@ -37,11 +37,15 @@ LINES = ['if x then', 'else', 'elseif x then', 'end if', 'for i = 1 to 2',
 LINES_Q = LINES[:26]
 
 PREAMBLE = ('type rec\nf as integer\nend type\ndim arr(3) as integer\n'
-            'dim r as rec\ns$ = "a"\nn% = 1\nlab:\n')
+            'dim r as rec\ns$ = "a"\nn% = 1\nconst kc = 3\nlab:\n')
 OPERANDS = {'missing': '', 'string': 's$', 'numeric': 'n%', 'array': 'arr',
             'record': 'r', 'keyword': 'then', 'strlit': '"q"', 'big': '100000',
             'neg': '-1', 'float': '2.5', 'elem': 'arr(1)', 'field': 'r.f',
-            'paren': '(n%)', 'label': 'lab', 'double': '1d300'}
+            'paren': '(n%)', 'label': 'lab', 'double': '1d300',
+            # constant expressions that fail when evaluated, a function name and a
+            # constant where a variable is wanted (added after seeded / found misses)
+            'divzero': '1 \\ 0', 'overflow': '32767 + 1', 'strcmp': '"a" < "b"',
+            'fname': 'fn', 'const': 'kc', 'power': '2 ^ 1000'}
 FORMS = [
     'x = {0}', 'x% = {0}', 'x$ = {0}', 'arr({0}) = {1}', 'r.f = {0}', 'r = {0}',
     'print {0}', 'print {0}; {1}', 'print {0}, {1}', 'print using {0}; {1}',
@@ -313,6 +317,36 @@ def space(tier):
         d.append(('ladder', 'raw', ['if x then ' * k + 'print 1']))
         d.append(('ladder', 'raw', ['x$ = ' + '"a" + ' * (k * 4) + '"b"']))
     fams.append(('ladder', d, {'max_depth': maxd}))
+    # (f) declaration blocks: TYPE blocks (self-referential, undefined, later-defined,
+    # mutually recursive element types) x uses; CONST / DIM / SUB headers whose
+    # constant expressions fail to evaluate
+    f = []
+    elems = ['a as integer', 'b as string * 4', 'c as t', 'd as u', 'e as zz',
+             'f as string', 'g(3) as integer', 'a as long']
+    uses = ['', 'dim v as t', 'dim w(2) as t', 'dim shared sv as t', 'v.a = 1',
+            'sub q(p as t)\nend sub', 'dim x1 as u', 'dim v as t\ndim w as t\nv = w']
+    others = ['', 'type u\nh as integer\nend type', 'type u\nh as t\nend type']
+    nel = (1, 2) if tier == 'quick' else (1, 2, 3)
+    for n in nel:
+        for body in itertools.product(elems, repeat=n):
+            for use in uses:
+                for oth in others:
+                    for oth_first in ((False,) if not oth else (False, True)):
+                        t = 'type t\n' + '\n'.join(body) + '\nend type'
+                        parts = ([oth, t] if oth_first else [t, oth]) + [use]
+                        f.append(('decls', 'raw', ['\n'.join(x for x in parts if x)]))
+    bad_consts = ['1 / 0', '1 \\ 0', '1 mod 0', '32767 + 1', '2 ^ 1000', '(-8) ^ 0.5',
+                  '"a" < "b"', '-(-32768)', '1e38 * 10', 'not 2.5e9', '"a" + "b"', '2 ^ -1']
+    for e in bad_consts:
+        for tmpl in ['const k = {0}', 'const k = {0}\nprint k', 'const k% = {0}',
+                     'dim q({0})', 'dim q(1 to {0})', 'dim shared q({0})', 'dim q({0}) as string',
+                     'sub p\nconst k = {0}\nend sub', 'sub p\ndim q({0})\nend sub',
+                     'sub p\nstatic q({0})\nend sub', 'const k = {0}\nconst j = k + 1\nprint j',
+                     'const k = {0}\ndim q(k)', 'x = {0}', 'print {0}', 'if {0} then print 1',
+                     'select case 1\ncase {0}\nend select', 'for i = 1 to {0}\nnext',
+                     'type t\na as string * {0}\nend type']:
+            f.append(('decls', 'raw', [tmpl.format(e)]))
+    fams.append(('decls', f, {'type_elements': elems, 'uses': uses, 'failing_constants': bad_consts}))
     # (e) single-token edits of the corpus (thorough)
     if tier == 'thorough':
         e = []
